@@ -375,6 +375,28 @@ static void IoWriter(const Json& cmd, JsonOut& o) {
     if (bounded) { nop::BoundedWriter<nop::StreamWriter<LimStream>> b(&w, static_cast<size_t>(limit)); WriterRunner<decltype(b), true, true, true>::run(b, nullptr, ops, o, false, cap); }
     else WriterRunner<nop::StreamWriter<LimStream>, true, false, false>::run(w, nullptr, ops, o, false, cap);
     out = w.stream().buf.got;
+  } else if (kind == "fdpart") {
+    // FdWriter on a non-blocking pipe of one page that has room for exactly |cap| more bytes: writes beyond that fail
+    // with EAGAIN, and a block larger than PIPE_BUF may be taken in part
+    int pfd[2];
+    if (::pipe(pfd) == 0) {
+      ::fcntl(pfd[1], F_SETPIPE_SZ, 4096);
+      ::fcntl(pfd[1], F_SETFL, ::fcntl(pfd[1], F_GETFL) | O_NONBLOCK);
+      ::fcntl(pfd[0], F_SETFL, ::fcntl(pfd[0], F_GETFL) | O_NONBLOCK);
+      const size_t room = cap < 4096 ? static_cast<size_t>(cap) : 4096;
+      std::vector<uint8_t> fill(4096 - room, 0x5A);
+      if (!fill.empty() && ::write(pfd[1], fill.data(), fill.size()) != static_cast<ssize_t>(fill.size())) o.kv_bool("prefill_failed", true);
+      {
+        nop::FdWriter w(pfd[1]);
+        if (bounded) { nop::BoundedWriter<nop::FdWriter> b(&w, static_cast<size_t>(limit)); WriterRunner<decltype(b), false, false, true>::run(b, nullptr, ops, o, false, cap); }
+        else WriterRunner<nop::FdWriter, false, false, false>::run(w, nullptr, ops, o, false, cap);
+      }
+      uint8_t b[8192]; ssize_t r; size_t skip = fill.size();
+      while ((r = ::read(pfd[0], b, sizeof b)) > 0) {
+        for (ssize_t i = 0; i < r; i++) { if (skip) skip--; else out.push_back(b[i]); }
+      }
+      ::close(pfd[0]);
+    }
   } else if (kind == "fdfull") {
     // FdWriter on a descriptor that accepts nothing (write() fails with ENOSPC)
     nop::FdWriter w(::open("/dev/full", O_WRONLY));
